@@ -62,3 +62,31 @@ def sorted_rule(ck, fb, scope, rule="U.sorted", floor=None, label=""):
     if floor is not None:
         ck.floor("sorted_range_calls" + label, n, floor)
     return n
+
+
+def optional_rule(ck, fb, rule="U.optional", floor=3):
+    """no dereference of an empty std::optional: the registry's create_*/get_* functions answer "refused" / "not found" with
+    an empty optional, and an assert does not survive NDEBUG"""
+    ck.rule(rule, "every `*opt` / `opt->` on a std::optional in the library lies where a test of that very optional (operator bool / has_value()) holds; an assert is no test (NDEBUG).  create_shared_property answers a duplicate with an empty optional: GeometryKernel::make_prop dereferenced it unconditionally and crashed when the position property had been cloned as a persistent property (F41)")
+    n = dead = 0
+    seen = set()
+    for f in fb.repo_fns():
+        if not f.has_cfg or f.where in seen:
+            continue
+        sites = [(b, i, x) for b, i, x in f.nodes(("call",)) if b in f.reach() and (x.get("pn", "").startswith("std::optional::operator*") or x.get("pn", "").startswith("std::optional::operator->")) and x.get("r") is not None]
+        if not sites:
+            continue
+        seen.add(f.where)
+        cn = Canon(f)
+        called = bool(fb.callers(f.id)) or f.d.get("access") == "public" or not f.cls
+        for b, i, x in sites:
+            O = cn.s(x["r"])
+            ok = any(p_ is True and s_ in (O + ".operator bool()", O + ".has_value()", O) for s_, p_, c_ in cn.facts(b)) or any(p_ is False and s_ in ("!" + O, "!" + O + ".has_value()") for s_, p_, c_ in cn.facts(b))
+            if not ok and not called:
+                dead += 1
+                ck.note("%s: unguarded dereference of %s in %s, which nothing calls (dead private helper)" % (f.loc(x), O[:50], f.pq.split("OpenVolumeMesh::")[-1]))
+                continue
+            n += 1
+            (ck.ok if ok else lambda r_, w_, t_: ck.violate(r_, w_, t_, "%s:%s" % (rule, f.pq)))(rule, f.loc(x), "%s: the optional %s is dereferenced only where it is known to hold a value" % (f.pq.split("OpenVolumeMesh::")[-1][:60], O[:60]))
+    ck.analysed["optional_dereferences"] = {"judged": n, "in_uncalled_private_helpers": dead}
+    ck.floor("optional_dereference_sites", n, floor)
